@@ -500,8 +500,11 @@ def run_property(prop, tier, seed, replay=None):
         ]),
         wall_s=round(wall, 2), violations=len(viol_lines),
     )
-    os.makedirs(os.path.join(VERIF_DIR, "evidence"), exist_ok=True)
-    with open(os.path.join(VERIF_DIR, "evidence", prop + ".json"), "w") as fh:
+    # (VERIF_EVIDENCE_DIR redirects the file when the checks are pointed at a
+    # seeded change, so that committed evidence only ever describes /repo)
+    evdir = os.environ.get("VERIF_EVIDENCE_DIR") or os.path.join(VERIF_DIR, "evidence")
+    os.makedirs(evdir, exist_ok=True)
+    with open(os.path.join(evdir, prop + ".json"), "w") as fh:
         json.dump(evidence, fh, indent=1, sort_keys=True)
     # --- 6. verdict ---------------------------------------------------------
     for line in known_lines:
